@@ -89,7 +89,7 @@ def gen_case(rng):
             "fault": fault, "exc": rng.randrange(len(EXCS)), "agent": rng.choice(["A", "B", "Ünï"]), "turn": rng.choice([0, 0, 1, 7, 12, "0", "t7"]),
             "text": rng.choice(["hello world", "moon river cat", "", "!!!", "tree " * 50, "moon\u00a0river\u3000cat\u2003tree"]), "completion": rng.choice(["short summary", "multi\nline\tcompletion with   spaces", "w " * 400, "ünï ✓"]),
             "clock2": {"pc_step": rng.choice([0.0, 1e-6]), "wall": rng.choice([1.0e9, 3.0e9]), "tz": rng.choice([None, "JST-9", "PST8PDT", "UTC0", "NST3:30"])},
-            "fail_at": rng.choice([1, 1, 2, 3]), "now_ms_float": rng.random() < 0.2, "timeout_over_ms": rng.choice([500.0, 500.0, 0.25, 0.375, 0.01, 0.49, 1.0])}
+            "fail_at": rng.choice([1, 1, 2, 3]), "clock_back": rng.random() < 0.5, "now_ms_float": rng.random() < 0.2, "timeout_over_ms": rng.choice([500.0, 500.0, 0.25, 0.375, 0.01, 0.49, 1.0])}
 
 
 def expected_id(agent, turn, slot, text):
@@ -232,6 +232,8 @@ def run_once(case, allow, fixture_lines, sess, vclock=None, record_key=None, the
                         env.cfg["t3"]["allow_reflection"] = False
                     t2n = case["turn"] + 1 if isinstance(case["turn"], int) else 2
                     later = NOW_MS + 3 * 86400000 + 5000  # the caller advanced the logical clock on its ctx
+                    if case.get("clock_back"):
+                        later = NOW_MS - 2 * 86400000 - 7000  # ... or set it back (a replay, another agent's earlier clock)
                     r2 = env.run(case["agent"], case["text"] + " again", t2n, now_ms=later, plan=plan2, vclock=vc, ctx_extra=extra, ctx_obj=r["ctx"])
                     second = {"exc": r2["exc"], "adds": len(idx.adds) - n_adds, "lines": len(env.records("t3_reflection.jsonl")) - n_lines, "reflect": calls["reflect"] - n_reflect,
                               "ts": [e.get("ts") for e in idx.adds[n_adds:]], "ids": [e.get("id") for e in idx.adds[n_adds:]], "texts": [str(e.get("text", "")) for e in idx.adds[n_adds:]],
